@@ -19,7 +19,7 @@ var c17Tails = []string{
 	".a | [0]", " | [0]", " | [1]", " | [-1]", "[?!a] | [0]", "[?a != `1`] | [0]", "[?a == `null`] | [1]", "[?!@] | [0]", ".a[?!a] | [0]", ".a || `\"dflt\"`", ".a && b", ".a == `1`", "[].a", ".a[]", "[*][0]", "[*].*", ".[a, b][0]", ".{x: a}.x",
 }
 
-var c17Bases = []string{"@", "a", "b", "a.b", "b[0]", "c", "[a, b]", "*", "a[*]", "b[*].a", "`[{\"a\":1,\"b\":[2]},null,{\"a\":null},[1],\"s\"]`", "values(@)", "a[?a]", "not_null(a, b)", "[a, b][]"}
+var c17Bases = []string{"@", "a", "b", "a.b", "b[0]", "c", "[a, b]", "*", "a[*]", "b[*].a", "`[{\"a\":1,\"b\":[2]},null,{\"a\":null},[1],\"s\"]`", "values(@)", "a[?a]", "not_null(a, b)", "[a, b][]", "c.c[:1].not_null($.a)", "c.c[0:].to_array($.b)"}
 
 var c17Filters = []string{"a", "@", "!a", "a == `1`", "a != `null`", "b[0]", "a && b", "type(@) == 'object'", "a.a", "`true`", "`false`"}
 
@@ -208,8 +208,10 @@ func (c *Ctx) c17Check(in c17Inst, d int) {
 	if strings.Contains(in.lhs, "pad_") {
 		return
 	}
-	l := c.LibSearch(in.lhs, goDoc)
-	r := c.LibSearch(in.rhs, goDoc)
+	// each side on its own fresh copy of the document: a side that damages what it reads must not
+	// be able to hide behind the other side seeing the same damage
+	l := c.LibSearch(in.lhs, ref.ToGo(c17Docs[d], ref.JSONNumber))
+	r := c.LibSearch(in.rhs, ref.ToGo(c17Docs[d], ref.JSONNumber))
 	if in.dropNulls && r.Err == nil && r.Panic == nil && r.MErr == nil {
 		r.M = dropNullsV(r.M)
 	}
@@ -246,15 +248,18 @@ func c17Grid(c *Ctx, idx int) {
 	}
 	// multi-select list == concatenation of the single selections
 	for d := range c17Docs {
-		goDoc := c17Go[d]
 		if c17Docs[d] == nil {
 			continue
 		}
 		es := []string{base, tailExpr(tail), c17Filters[idx%len(c17Filters)]}
+		if !isProjText(base) || strings.Contains(base, "not_null($") || strings.Contains(base, "to_array($") {
+			// an element that pipes the base into a projection, next to elements that read the same members again
+			es = append(es, base+" | [*].a", "a", "b")
+		}
 		if m := ref.Search("["+strings.Join(es, ", ")+"]", c17Docs[d]); m.Unspec {
 			continue
 		}
-		whole := c.LibSearch("["+strings.Join(es, ", ")+"]", goDoc)
+		whole := c.LibSearch("["+strings.Join(es, ", ")+"]", ref.ToGo(c17Docs[d], ref.JSONNumber))
 		var parts []ref.V
 		ok := true
 		var firstErr LibOut
@@ -262,7 +267,7 @@ func c17Grid(c *Ctx, idx int) {
 			if e == "*" {
 				e = "(*)"
 			}
-			p := c.LibSearch("["+e+"]", goDoc)
+			p := c.LibSearch("["+e+"]", ref.ToGo(c17Docs[d], ref.JSONNumber))
 			if p.Err != nil || p.Panic != nil || p.MErr != nil {
 				if ok {
 					firstErr = p
@@ -336,8 +341,8 @@ func c17Random(c *Ctx, idx int) {
 		if !c.c17Applicable(in, doc, goDoc) || strings.Contains(in.lhs, "pad_") {
 			continue
 		}
-		l := c.LibSearch(in.lhs, goDoc)
-		rr := c.LibSearch(in.rhs, goDoc)
+		l := c.LibSearch(in.lhs, ref.ToGo(doc, ref.JSONNumber))
+		rr := c.LibSearch(in.rhs, ref.ToGo(doc, ref.JSONNumber))
 		if in.dropNulls && rr.Err == nil && rr.MErr == nil && rr.Panic == nil {
 			rr.M = dropNullsV(rr.M)
 		}
@@ -356,7 +361,7 @@ func c17Random(c *Ctx, idx int) {
 func init() {
 	Register(&Property{
 		ID:            "C17",
-		Rule:          "identity schemata instantiated exhaustively over 15 bases x 60 selector tails (incl. index literals around the 8-bit boundaries: 127, 128, 200, 255, 256, -128, -129, -256) x 11 filter conditions x 16 documents (nulls, non-containers and empty containers inside projected arrays; two documents with 300-element arrays) plus seeded random instantiations: projection (array, flatten, filter, object, slice) followed by selectors = projected array piped into [*] + selectors; x[*].e = map(&e, x) with nulls removed (x an array); (P).e = P | e; a.b = a | b (a not a projection, a non-null); {k: e}.k = e and [e1,e2,e3] = concatenation of [ei] on a non-null current node; slot rewrites: in generated expressions (core language, builtins, lets, arithmetic) 1-3 expression slots (function arguments, expression-reference bodies, multi-select elements, operands, pipe sides, filter conditions, let bindings and bodies, the whole text) are replaced by (e | @), (@ | e), (let $zz = e in $zz) or (e | @ | @), which keeps the meaning and the evaluation order but breaks the syntactic adjacency that peephole rewrites and fused fast paths key on; the library is compared with itself (values canonically, errors by category); instances on which the identity does not apply are dropped and counted; non-trivial = left-hand side evaluates to a non-null, non-empty value",
+		Rule:          "identity schemata instantiated exhaustively over 17 bases (two of them reach an array of the document through a slice of a string) x 60 selector tails (incl. index literals around the 8-bit boundaries: 127, 128, 200, 255, 256, -128, -129, -256) x 11 filter conditions x 16 documents (nulls, non-containers and empty containers inside projected arrays; two documents with 300-element arrays) plus seeded random instantiations: projection (array, flatten, filter, object, slice) followed by selectors = projected array piped into [*] + selectors; x[*].e = map(&e, x) with nulls removed (x an array); (P).e = P | e; a.b = a | b (a not a projection, a non-null); {k: e}.k = e and [e1,e2,e3] = concatenation of [ei] on a non-null current node; slot rewrites: in generated expressions (core language, builtins, lets, arithmetic) 1-3 expression slots (function arguments, expression-reference bodies, multi-select elements, operands, pipe sides, filter conditions, let bindings and bodies, the whole text) are replaced by (e | @), (@ | e), (let $zz = e in $zz) or (e | @ | @), which keeps the meaning and the evaluation order but breaks the syntactic adjacency that peephole rewrites and fused fast paths key on; the library is compared with itself (values canonically, errors by category); instances on which the identity does not apply are dropped and counted; non-trivial = left-hand side evaluates to a non-null, non-empty value",
 		MinNontrivial: 2000,
 		Streams: []Stream{
 			{Name: "grid", Setup: c17Setup, N: c17GridN, Run: c17Grid, Exhaustive: true},
